@@ -421,7 +421,7 @@ def run(ctx):
 
 
 MANIFEST_ENTRY = {
-    "technique": "static analysis: abstract evaluation (rules/absint.py) of check_locales_inner over every order of the locales, of ParsedValue::merge on null values, of Locale::merge, of make_builder_keys on the Locale of a sub-key group, of DefaultedLocales new / push / compute / default_of_inner as a whole (chains, cycles, self loops, two chains through one locale); of the configuration visitor (every valid `inherits` entry reaches the merge: shared with C19.R0); the per-locale arms of interpolated keys generated and read back (an arm is widened by exactly the locales that fall back to it: rules/gentext.py); MIR provenance of the merge argument and of the inherits table into the foreign-key resolver; templates of the remaining generators in canonical form; the resolution clause of C06.R0 over inherits chains of several hops",
+    "technique": "static analysis: abstract evaluation (rules/absint.py) of check_locales_inner over every order of the locales, of ParsedValue::merge on null values, of Locale::merge, of make_builder_keys on the Locale of a sub-key group, of DefaultedLocales new / push / compute / default_of_inner as a whole (chains, cycles, self loops, two chains through one locale); of the configuration visitor (every valid `inherits` entry reaches the merge: shared with C19.R0); the per-locale arms of interpolated keys generated and read back (an arm is widened by exactly the locales that fall back to it: rules/gentext.py); MIR provenance of the merge argument and of the inherits table into the foreign-key resolver; templates of the remaining generators in canonical form; the resolution clause of C06.R0 over inherits chains of several hops; reduce evaluated on values that reduce to nothing (the key stays defined); display_impl evaluated for the lazily loading client and its new() arms read back",
     "level_text": "Structural: where the inherits table enters (DefaultTo), where fallbacks are recorded, how the chain is walked (incl. that every walk starts from an empty visited set) and how every generator consumes the result are decided from the code for all projects: table-like functions by exhaustive case analysis over constructor shapes and map shapes, the rest by dominance / provenance. No project is loaded.",
     "level_note": "Trusted: Rust or-pattern semantics. D11 repaired upstream (44c852c). Not decided: concrete chain results.",
 }
